@@ -122,6 +122,10 @@ def race_pass(ctx: core.Ctx):
         {"version": "2.2", "parked": [c09.A], "senders": [[c09.A]], "faults": 1},
         {"version": "2.1", "parked": [c09.A, c09.B], "senders": [[c09.B], [c09.A]], "faults": 1},
         {"version": "2.0", "parked": [c09.I, c09.A], "senders": [[c09.A]], "faults": 1},
+        # the wait for the next message times out during the release (the write in flight is abandoned or, if the
+        # code under test shields it, still completes): afterwards nothing is lost and nothing is written twice
+        {"version": "2.2", "parked": [c09.A, c09.B], "senders": [], "cancels": 1},
+        {"version": "2.1", "parked": [c09.A, c09.B, c09.C], "senders": [], "cancels": 1, "faults": 1},
     ]
     res = explore.explore(ctx, c09.MOD, cfgs, 2)
     viols = [core.Violation("C08|race|" + v.key.split("|", 1)[1], "write fault while the application sends: " + v.what, dict(v.replay, race=True)) for v in res["violations"]]
